@@ -8,7 +8,7 @@
    PARTIAL beyond that: independence from placement and discovery order, and that every failure is logged with the file's path are
    decided by the metamorphic end-to-end oracle of tools/props/C10.py. *)
 From Coq Require Import Sorting.Permutation.
-From QV Require Import Model.Base Generated.Tables Model.Unit Model.Path Model.Names Model.Convert Model.Process Model.Output Proofs.C08 Proofs.C09run Proofs.C10 Proofs.C10run Proofs.C10pods Proofs.Prio Model.ProcessD Proofs.RunTrees.
+From QV Require Import Model.Base Generated.Tables Model.Unit Model.Path Model.Names Model.Convert Model.Process Model.Output Proofs.C08 Proofs.C09run Proofs.C10 Proofs.C10run Proofs.C10pods Proofs.Prio Model.ProcessD Proofs.RunTrees Proofs.C10order.
 
 Theorem C10_exit : forall dry fc mk a prev svcs,
   let '(effs, errs, exit) := output_phase dry fc mk a prev svcs in (exit = 1%N <-> errs <> []) /\ (exit = 0%N <-> errs = []).
@@ -126,3 +126,21 @@ Theorem C10_added_files_change_nothing_pods_with_dropins : forall podman exists_
     (tree_results podman exists_path kill_fixed mount_nl b (filter (fun f => keepp (fst (fst f))) files))
     (filter (fun p => keepp (l_path (fst p))) (tree_results podman exists_path kill_fixed mount_nl b files)).
 Proof. exact trees_added_files_change_nothing_pods. Qed.
+
+(* ---- discovery order ---- a unit that converts on its own has that result in every run containing its file, in whatever order
+   the files were discovered and whatever the other files are (valid, failing or unloadable), given distinct paths and that no other
+   file has its file name *)
+Theorem C10_lone_unit_result_any_order : forall podman exists_path kill_fixed mount_nl files files' p t svc sp,
+  Permutation files files' ->
+  NoDup (map fst files) -> In (p, t) files ->
+  (forall q, In q (map fst files) -> q <> p -> forall f, file_name p = Some f -> file_name q <> Some f) ->
+  type_of_path p <> Some TPod ->
+  snd (process_files podman exists_path kill_fixed mount_nl [(p, t)]) = [(p, ROk svc sp)] ->
+  In (p, ROk svc sp) (snd (process_files podman exists_path kill_fixed mount_nl files)) /\
+  In (p, ROk svc sp) (snd (process_files podman exists_path kill_fixed mount_nl files')).
+Proof. exact lone_unit_result_any_order. Qed.
+
+Theorem C10_lone_unit_example :
+  exists svc sp, exo_run [exo_unit] = [(fst exo_unit, ROk svc sp)] /\
+    In (fst exo_unit, ROk svc sp) (exo_run (exo_unit :: exo_rest)) /\ In (fst exo_unit, ROk svc sp) (exo_run (rev (exo_unit :: exo_rest))).
+Proof. exact lone_unit_example. Qed.
